@@ -577,6 +577,12 @@ func LookupEnv(k string) (string, bool) {
 	}
 	w.EnvReads++
 	h := envMix("env:" + k)
+	if h%2 == 1 && (strings.HasSuffix(k, "FLAGS") || strings.HasSuffix(k, "OPTS") || strings.HasSuffix(k, "OPTIONS") || strings.HasSuffix(k, "ARGS")) {
+		// a variable that looks like default options for a tool: in some
+		// environments somebody has set it to options of this tool
+		opts := []string{"-x", "-nolint", "-cache", "-optimize-parser", "-optimize-grammar -nolint", "-support-left-recursion"}
+		return opts[(h>>8)%uint64(len(opts))], true
+	}
 	switch h % 4 {
 	case 0:
 		return "", false
